@@ -114,6 +114,45 @@ def c02_alias_deep(r):
         shutil.rmtree(d, ignore_errors=True)
 
 
+def c13_hash_equal(r):
+    import diskcache
+    d = tempfile.mkdtemp()
+    try:
+        disk = diskcache.Disk(d)
+        k1, k2 = lit(r['k1']), lit(r['k2'])
+        h1, h2 = disk.hash(k1), disk.hash(k2)
+        eq = spec_key_equal(k1, k2)
+        return {'reproduced': bool(eq and h1 != h2), 'observed': [h1, h2], 'expected': 'equal hashes' if eq else 'n/a'}
+    finally:
+        shutil.rmtree(d, ignore_errors=True)
+
+
+def released_hash(key, protocol=5):
+    import pickle, pickletools, struct, zlib
+    mask = 0xFFFFFFFF
+    if type(key) is bytes:
+        return zlib.adler32(key) & mask
+    if type(key) is str:
+        return zlib.adler32(key.encode('utf-8')) & mask
+    if type(key) is int and -2**63 <= key < 2**63:
+        return key % mask
+    if type(key) is float:
+        return zlib.adler32(struct.pack('!d', key)) & mask
+    return zlib.adler32(pickletools.optimize(pickle.dumps(key, protocol=protocol))) & mask
+
+
+def c13_hash_pin(r):
+    import diskcache
+    d = tempfile.mkdtemp()
+    try:
+        disk = diskcache.Disk(d, pickle_protocol=5)
+        k = lit(r['key'])
+        got, exp = disk.hash(k), released_hash(k)
+        return {'reproduced': got != exp, 'observed': got, 'expected': exp}
+    finally:
+        shutil.rmtree(d, ignore_errors=True)
+
+
 def main():
     r = json.load(sys.stdin)
     try:
